@@ -19,10 +19,13 @@ type Gen struct {
 	npcall   int
 	maxPCall int
 	rewards  bool // this tree may call delegationRewards (trigger of finding C09-1)
+	tokenCB  bool // this tree may make one crossChain call of the hostile registered ERC-20
+	usedCB   bool
+	poolUse  map[int]MarkerKind // per storage context: its pool entry is used by cancel or by increaseFee markers, not both
 }
 
 func NewGen(r *lib.Rand, w *World, thorough bool) *Gen {
-	g := &Gen{r: r, w: w, slots: map[int][]uint64{}, maxDepth: 3, maxFrame: 7, maxPCall: 9, nextTag: 2000}
+	g := &Gen{r: r, w: w, slots: map[int][]uint64{}, poolUse: map[int]MarkerKind{}, maxDepth: 3, maxFrame: 7, maxPCall: 9, nextTag: 2000}
 	if thorough {
 		g.maxDepth, g.maxFrame, g.maxPCall = 5, 14, 16
 	}
@@ -51,7 +54,7 @@ func (g *Gen) Tree() *Node {
 	root := &Node{Kind: NFrame, ID: g.id(), CallKind: lib.CALL, Addr: g.nextAddr}
 	g.nextAddr++
 	g.fillFrame(root, 0, root.Addr, false)
-	root.End = [...]string{"return", "return", "return", "return", "return", "return", "revert", "revert", "invalid", "return"}[g.r.Intn(10)]
+	root.End = [...]string{"return", "return", "return", "return", "return", "return", "return", "revert", "invalid", "return"}[g.r.Intn(10)]
 	return root
 }
 
@@ -91,7 +94,10 @@ func (g *Gen) fillFrame(f *Node, depth, ctx int, static bool) {
 				cctx = ch.Addr
 			}
 			g.fillFrame(ch, depth+1, cctx, static || ck == lib.STATICCALL)
-			ch.End = [...]string{"return", "return", "return", "return", "return", "return", "revert", "revert", "revert", "invalid"}[g.r.Intn(10)]
+			ch.End = [...]string{"return", "return", "return", "return", "return", "return", "return", "revert", "revert", "invalid"}[g.r.Intn(10)]
+			if ch.End != "return" && g.r.Chance(50) {
+				ch.Caught = true
+			}
 			f.Body = append(f.Body, ch)
 		case 3:
 			g.npcall++
@@ -101,13 +107,30 @@ func (g *Gen) fillFrame(f *Node, depth, ctx int, static bool) {
 				// property C10's business); all of them must fail with "write protection"
 				ck = lib.CallKind(1 + g.r.Intn(3))
 			}
-			mk := MarkerKind(g.pickKind([]int{38, 20, 16, 10, 7, 9}))
+			mk := MarkerKind(g.pickKind([]int{34, 18, 12, 9, 6, 8, 10, 5, 8}))
+			switch mk {
+			case MkCancel:
+				if _, used := g.poolUse[ctx]; used {
+					mk = MkApprove
+				} else {
+					g.poolUse[ctx] = MkCancel
+				}
+			case MkIncreaseFee:
+				if k, used := g.poolUse[ctx]; used && k != MkIncreaseFee {
+					mk = MkApprove
+				} else {
+					g.poolUse[ctx] = MkIncreaseFee
+				}
+			}
 			if g.rewards && g.r.Chance(35) {
 				mk = MkRewards
 				ck = lib.CallKind(g.r.Intn(4))
 			}
+			if g.tokenCB && !g.usedCB && !static && g.r.Chance(40) {
+				mk, ck, g.usedCB = MkTokenCB, lib.CALL, true
+			}
 			m := &Marker{ID: g.id(), Kind: mk, Ctx: ctx}
-			if mk == MkDelegate || mk == MkXChain {
+			if mk == MkDelegate || mk == MkXChain || mk == MkBridgeCall || mk == MkIncreaseFee {
 				m.Bit = g.nextBit
 				g.nextBit++
 			}
@@ -115,7 +138,11 @@ func (g *Gen) fillFrame(f *Node, depth, ctx int, static bool) {
 			if ck == lib.STATICCALL || ck == lib.DELEGATECALL {
 				// these opcodes carry no value
 			}
-			f.Body = append(f.Body, &Node{Kind: NPCall, ID: m.ID, CallKind: ck, Caught: g.r.Chance(55), M: m})
+			caught := g.r.Chance(55)
+			if !mk.designedOK() || (ck != lib.CALL && mk != MkRewards) {
+				caught = g.r.Chance(85) // a call designed to fail is mostly tolerated by its caller, so that more transactions get through
+			}
+			f.Body = append(f.Body, &Node{Kind: NPCall, ID: m.ID, CallKind: ck, Caught: caught, M: m})
 		}
 	}
 }
